@@ -218,13 +218,14 @@ _SHARE = [
 
 
 def parse_intconst(tok):
-    """number as IntLine() writes it: $hex, 0xhex, hexH, x'hex'"""
+    """number as IntLine() writes it: $hex, 0xhex, hexH, x'hex' -> (value, format) or (None, "?")"""
     t = tok.strip()
-    m = (re.match(r"^\$([0-9A-Fa-f]+)$", t) or re.match(r"^0x([0-9A-Fa-f]+)$", t) or
-         re.match(r"^([0-9][0-9A-Fa-f]*)[Hh]$", t) or re.match(r"^x'([0-9A-Fa-f]+)'$", t))
-    if m:
-        return int(m.group(1), 16)
-    return None
+    for fmt, rx in (("$", r"^\$([0-9A-Fa-f]+)$"), ("0x", r"^0x([0-9A-Fa-f]+)$"), ("h", r"^([0-9][0-9A-Fa-f]*)[Hh]$"),
+                    ("x'", r"^x'([0-9A-Fa-f]+)'$")):
+        m = re.match(rx, t)
+        if m:
+            return int(m.group(1), 16), fmt
+    return None, "?"
 
 
 def parse_share(text, kind):
